@@ -29,29 +29,35 @@ on a scratch worktree). They are kept under `/verif/seeded/<id>/`
 (patch.diff, demo_test.go, the agent's README.md, meta.json). None is ever
 committed to /repo.
 
-Result: 164 changes: 3 waves x 11 properties x 3 (the second and third wave
+Result: 186 changes: 3 waves x 11 properties x 3 (the second and third wave
 were also given one-line descriptions of the earlier changes so as not to
 repeat them, and the third was asked for the hardest-to-notice realistic
 change), plus a fourth wave of 16 in which each of four agents got all eleven
 property texts and a set of files to stay within (the small files nobody had
 touched; parse.go/disasm.go; machine.go/reflect.go; CLI and API wrappers),
-and a fifth wave of 16 partial regressions of the repair commits themselves
-(each still handles its commit message's own reproduction), and a sixth wave
-of 33 (again 3 per property, with the descriptions of everything before).
-161 are reported by a quick check; 3 are recorded as not pursued
+a fifth wave of 16 partial regressions of the repair commits themselves
+(each still handles its commit message's own reproduction), a sixth wave
+of 33 (again 3 per property, with the descriptions of everything before) and
+a seventh of 22 (2 per property, asked for changes that need a combination of
+conditions: an option and an error path, state left by an earlier call, a
+particular kind of reader or writer).
+183 are reported by a quick check; 3 are recorded as not pursued
 (C07-w6-m3 needs one particular coincidence of window sizes that neither the
 agent's own sweeps nor ours produce; C08-w3-m3 and C09-w3-m3 need sources / strings of 16 MiB and more - beyond
 every size class the properties name, at seconds and hundreds of MB per run).
-149 of the 161 are reported by the check of the property they were written
-against; 12 break another property's statement more directly and are reported
+168 of the 183 are reported by the check of the property they were written
+against; 15 break another property's statement more directly and are reported
 there (concurrent callers or real parallelism -> C12: C19-w2-m3, C06-w3-m2,
-C09-w3-m2, C19-w3-m2, C08-w6-m2, C11-w6-m3 - the last two only once per quick
-run; a failing dump write -> C18: C09-w3-m1, -> C13: C09-w6-m3; a reused Prog
+C09-w3-m2, C19-w3-m2, C08-w6-m2, C11-w6-m3, C08-w7-m2, C14-w7-m2, C19-w7-m1;
+a failing dump write -> C18: C09-w3-m1, -> C13: C09-w6-m3; a reused Prog
 -> C09: C14-w6-m2; these were written "against" a property
 whose workload has no such dimension).
 Misses when first tried: 3 in wave 1, 13 in wave 2, 18 in wave 3 (hard mode),
-4 in wave 4, 6 in wave 5, about 12 in wave 6 (most answered before the first
-trial, on reading the agents' descriptions) - and one wave-4 change (an endless diagnostic loop in the parser)
+4 in wave 4, 6 in wave 5, about 12 in wave 6 and 11 in wave 7 (in wave 6 most,
+in wave 7 four of them answered before the first trial, on reading the
+agents' descriptions; three of wave 7's need overlapping calls and are
+C12's to report)
+- and one wave-4 change (an endless diagnostic loop in the parser)
 made the check run for over an hour before the supervisor was given a bound
 on worker deaths (section 12);
 for 3 more (C19 wave 1) the workload was widened on reading the agent's
@@ -61,6 +67,31 @@ change - and the "detected by" column says which strengthening it took. After
 each strengthening the check was re-run on the unchanged tree to make sure it
 stays silent there (and two of my own transient mistakes were caught that way,
 section 12).
+
+Regression over the whole store (`tools/run_seeded.sh`, every change against
+the quick check that is recorded as detecting it, result in
+`seeded/RESULTS.txt`). The first complete regression (164 changes, the
+harness as of wave 6) reported 157: besides the three not pursued, four
+changes that HAD been detected were missed, i.e. their detection was a matter
+of luck or had been lost: C06-w2-m2 (needs 67 825 constants; that size was a
+1-in-400 draw per limit run), C12-w4-F3m4 (a shared error value; seen only as
+a one-off race report), C16-w3-m3 (print of a block value: the generator
+change of a later wave had stopped producing it) and C13-w3-m1 (a Load that
+never returns: the worker spent its 30 s supervisor period shrinking a hang
+at 20 s per candidate, was killed, restarted one index further, and so on for
+over an hour; the bound on worker deaths did not apply because the deaths did
+not recur when the run was repeated alone). All four are now deterministic:
+the large sizes are the first run indices of every C06 batch (C09 likewise
+gets its code sections beyond 1 and 2 MiB there); C12 keeps every error value
+the calls return and re-reads it at the end of the run (new invariant: an
+error handed to a caller is not changed by a later call), with two programs
+failing the same way at different places among the callers' inputs; C16 has
+an input kind that prints block values with several fields directly, through
+a variable and nested; hangs are not shrunk, one 20 s wait per variant and
+worker process is enough, and the supervisor stops after six deaths whether
+or not they recur alone (unexplained deaths end the check with exit 2, never
+with a VIOLATION). The regression was then repeated with the final harness;
+`seeded/RESULTS.txt` is that second result.
 
 Counter-test (no alarm on code where the properties hold): two further
 sub-agents were asked for behaviour-preserving maintenance changes (12 in
@@ -133,6 +164,16 @@ The strengthenings, in one list:
   Execute with writers of its own followed by a plain Execute in C16; the
   runtime's "all goroutines are asleep" report attributed to bcl when a bcl
   frame is what is blocked.
+* Wave 7 added: a struct type with several tagged fields bound for the first
+  time in the process by concurrent callers (cold start); `--` before, after
+  and between FILE arguments and flags; a corpus file whose BIND operand is a
+  constant index above 240; chains of thousands of prefix operators and
+  parentheses in C09; LoadProg through a caller-owned `*bufio.Reader` that is
+  retried and then reset and used again after an unrelated load, Load on a
+  zero-value Prog, LoadProg with nil writers (C13 variants 6-8); output and
+  log writers that are plain values of one uncomparable dynamic type (a func
+  adapter, a struct holding a slice) and one writer serving as both, under all
+  8 observer settings (C19); code sections of 1.07, 2.1 and 3.05 MiB (C09).
 * C19: programs with 236-330 locals; strings up to 4097 bytes; Execute given
   writers of its own; a failing output writer under all 8 settings; runs of
   more than 65 536 instructions.
